@@ -135,7 +135,10 @@ def main():
         # `resolve`: auto pf = reinterpret_cast<type_id (*)()>(*p); *p = pf();
         res = [n for n, l in lambdas.items() if len(l[2]) == 1 and l[3] == ('block', [
             ('decl', 'auto', [('pf', ('cast', 'reinterpret_cast', 'type_id ( * ) ( )', ('un', '*', ('id', l[2][0]))))]),
-            ('expr', ('assign', '=', ('un', '*', ('id', l[2][0])), ('call', ('id', 'pf'), [])))])]
+            ('expr', ('assign', '=', ('un', '*', ('id', l[2][0])), ('call', ('id', 'pf'), [])))])
+            # *p = reinterpret_cast<type_id (*)()>(*p)();      the same call without the name
+            or len(l[2]) == 1 and l[3] == ('block', [
+            ('expr', ('assign', '=', ('un', '*', ('id', l[2][0])), ('call', ('cast', 'reinterpret_cast', 'type_id ( * ) ( )', ('un', '*', ('id', l[2][0]))), [])))])]
         if len(res) != 1:
             raise mc.Unsupported('the lambda that resolves one cell is no longer `auto pf = reinterpret_cast<type_id (*)()>(*p); *p = pf();`')
         resolve = res[0]
